@@ -87,6 +87,8 @@ func exprString(x ast.Expr) string {
 		return "*" + exprString(t.X)
 	case *ast.ArrayType:
 		return "[]" + exprString(t.Elt)
+	case *ast.BasicLit:
+		return t.Value
 	}
 	return fmt.Sprintf("%T", x)
 }
